@@ -1,4 +1,4 @@
-/* C07-corpus: known C07:init-array-size-brace-elision
+/* C07-corpus: pass   (was known C07:init-string-path, repaired in /repo)   (was filed as C07:init-array-size-brace-elision: same root cause)
    the size of an array of unknown bound whose initializer list mixes a braced/string element with
    brace-elided scalars: `char bar[][6] = {"Hello", 0}` has 2 rows (C11 6.7.9p20,22); c2mir counts 1
    (from c-tests/lacc/initialize-string.c) */
